@@ -7,6 +7,10 @@ package certs
 // delivered in pieces (wire.Delivery: short reads, (0, nil) results,
 // end-of-stream reported with the last bytes) and must give the same result,
 // including the fingerprint and the retained raw bytes computed while reading.
+// Names are compared by IsZero() too (explicitly empty name vs zero Name). A
+// parsed certificate's Marshal result is the caller's memory (overwriting it
+// must not reach the certificate), and a parsed certificate whose fields were
+// changed afterwards must Marshal to the changed value.
 
 import (
 	"bytes"
